@@ -280,6 +280,11 @@ func genDoc(r *coqfmt.Rng, t reflect.Type, bad *int) *doc {
 		}
 		return dL(l...)
 	case t == tDur:
+		if *bad > 0 && r.Chance(1, 3) {
+			// a number written as a STRING is not a duration (time.ParseDuration wants a unit) - in every format
+			*bad--
+			return dS(coqfmt.Pick(r, []string{"1500", "-20", "+7", "5", "00", "1000000000", "-0x10", "1_000"}))
+		}
 		if plant() {
 			return coqfmt.Pick(r, []*doc{dS("bogus"), dS("5"), dB(true), dL(dI(1)), dS("")})
 		}
@@ -485,7 +490,7 @@ func corrupt(r *coqfmt.Rng, text string) string {
 		t := toks[i]
 		switch {
 		case strings.HasPrefix(t, "\""):
-			toks[i] = coqfmt.Pick(r, []string{"17", "true", "\"other\"", "-3", "\"1h\""})
+			toks[i] = coqfmt.Pick(r, []string{"17", "true", "\"other\"", "-3", "\"1h\"", "\"1500\"", "\"-20\"", "\"0\""})
 		case t == "true" || t == "false":
 			toks[i] = coqfmt.Pick(r, []string{"1", "\"true\"", "maybe"})
 		default:
